@@ -102,11 +102,17 @@ def stripDetail (impl : List String) : List String := impl.takeWhile (· != "|")
 REJECTIONS agree whatever error each names (the property says "returns an error", not which one: a parser
 that reports the same malformed line as `InvalidValue` instead of `UnexpectedEnd` still satisfies it). -/
 def differs (impl model : List String) : Bool :=
-  if impl.head? == some "err" && model.head? == some "err" then false else impl != model
+  if impl.head? == some "err" && model.head? == some "err" then false
+  -- input the model REJECTS and the implementation accepts (e.g. a reader that skips `g` / `usemtl` lines instead
+  -- of reporting an unsupported item): the property allows either outcome for input that is not well-formed; the
+  -- spec oracle still requires every index of the accepted mesh to be valid and build() to succeed
+  else if impl.head? == some "ok" && model.head? == some "err" then false
+  else impl != model
 
 /-- Tag for rejections that name different errors (diagnostic only). -/
 def kindTag (impl model : List String) : List String :=
-  if impl.head? == some "err" && model.head? == some "err" && impl != model then ["error-kind-differs"] else []
+  if impl.head? == some "err" && model.head? == some "err" && impl != model then ["error-kind-differs"]
+  else if impl.head? == some "ok" && model.head? == some "err" then ["accepts-more-than-model"] else []
 
 def handle (case impl : List String) : Verdict :=
   match case with
